@@ -9,6 +9,12 @@
                                   options c, LocalRun lr) and the settings changes cs; Fault Regexp = the process dies in
                                   regexp.MustCompile
      shown fx .. g root files     what the client sees: filter (visible g root) (raw (analysed files))
+     is_handled fx .. g rel       site 1 of the ignore-for-analysis rules: does the directory walk (start-up, and again
+                                  after a settings change) scan the file rel of the workspace?  (analysed files = these)
+     need_handle fx .. g rel      site 2: does the per-file predicate IsNeedHandle accept the file (didOpen, didChange,
+                                  watched-file events, hover, definition, ...)?
+     spec_handled i rel           the documented law: no ignore rule of the intent matches the file's name or a folder
+                                  on its way
      spec_shown i root files      the documented law for the intent i of the session
      re_ok / re_match / raw       the Go regexp engine and the everything-enabled analysis: arbitrary (universally
                                   quantified) in every theorem *)
@@ -18,16 +24,19 @@ From LH Require Generated.GenFlags.
 Import ListNotations.
 Local Open Scope N_scope.
 
-(* The full statement, for one variant of the code: for every configuration, by every route, the server survives and
+(* The full statement, for one variant of the code: for every configuration, by every route, the server survives,
    shows exactly what the intent allows (the only premise about the analysis: its diagnostics have one of the existing
-   types 1..29).  Proved for the deployed code (section 0); FALSE for the code before the repairs (section 5). *)
+   types 1..29) - in particular it analyses exactly the files no ignore rule matches - and every later per-file
+   request is accepted for exactly those files.  Proved for the deployed code (section 0); FALSE for the code before
+   the repairs (sections 5 and 6). *)
 Definition C17_full_for (fx : fixes) : Prop :=
   forall (re_ok : path -> bool) (re_match : path -> path -> bool) (raw : list path -> list diag)
          root files j c local_run cs,
     client_wf c = true -> forallb client_wf cs = true ->
     forallb type_ok (raw (filter (spec_handled re_ok re_match (session_intent j c cs)) files)) = true ->
     exists s, session fx re_ok j c local_run cs = Ok s
-      /\ shown fx re_ok re_match raw (s_g s) root files = spec_shown re_ok re_match raw (session_intent j c cs) root files.
+      /\ shown fx re_ok re_match raw (s_g s) root files = spec_shown re_ok re_match raw (session_intent j c cs) root files
+      /\ (forall rel, need_handle fx re_ok re_match (s_g s) rel = spec_handled re_ok re_match (session_intent j c cs) rel).
 
 (* ---- 0. the deployed code ---- *)
 
@@ -39,7 +48,8 @@ Print Assumptions C17_full.
    sources on every run (Tie/TieConfig.v: no regexp.MustCompile on user text + IgnoreVarMap allocated at start-up; the
    errTypeList of IsSpecialCheck, as a list; the table of IsGlobalIgnoreErrType / IsIgnoreErrorFile uses inside
    check/analysis has the repaired shape; handleNotJSONCheckFlag writes OpenErrorTypeMap; ReadConfig reads
-   IgnoreFileErrTypesMap before assigning).  Reverting any of the six fix: commits breaks this proof (Tie/TieConfig.v
+   IgnoreFileErrTypesMap before assigning; getAllFile and IsIgnoreCompleteFile both end in isIgnoreRelFile).
+   Reverting any of the seven fix: commits breaks this proof (Tie/TieConfig.v
    itself compiles for any state of the code, so that the correspondence legs still run - with the variant of the model
    that describes the changed code - and look for a failing input). *)
 Theorem C17_code_is_deployed_variant : fixes_now = deployed.
@@ -65,10 +75,10 @@ Print Assumptions C17_flag_type_bijection.
 (* the repaired code (the four repairs of round 2; with or without the regexp repair; gate_covers fx = the gate list of
    IsSpecialCheck contains every type the cross-file passes emit): for every session that does not fault (any route,
    any history), any regexp engine, any analysis, the client sees exactly the filtered everything-enabled run.
-   No guard on the configuration is left (before: special_gate_ok / diag_guard / json_wf). *)
+   No guard on the configuration is left (before: special_gate_ok / diag_guard / json_wf / walk_ok). *)
 Theorem C17_filter_law :
   forall fx re_ok re_match raw root files j c local_run cs s,
-    gate_covers fx = true -> fx_coupled fx = true -> fx_dead fx = true -> fx_dup fx = true ->
+    gate_covers fx = true -> fx_coupled fx = true -> fx_dead fx = true -> fx_dup fx = true -> fx_sites fx = true ->
     client_wf c = true -> forallb client_wf cs = true ->
     session fx re_ok j c local_run cs = Ok s ->
     forallb type_ok (raw (filter (spec_handled re_ok re_match (session_intent j c cs)) files)) = true ->
@@ -103,13 +113,16 @@ Print Assumptions C17_classes_empty.
 
 (* EVERY variant of the code (fx arbitrary: also the code before the repairs): if every diagnostic of the
    everything-enabled run passes the guard (it is excluded anyway, or neither the five-flag gate nor a coupled type nor
-   the white list stands in its way), the client sees exactly the filtered everything-enabled run *)
+   the white list stands in its way) and the directory walk scans the files of the workspace the intent wants analysed
+   (walk_ok; always true once the two ignore sites are one: C17_ignore_sites_class_empty), the client sees exactly the
+   filtered everything-enabled run *)
 Theorem C17_filter_law_guarded :
   forall fx re_ok re_match raw root files j c local_run cs s,
     json_wf fx j = true -> client_wf c = true -> forallb client_wf cs = true ->
     session fx re_ok j c local_run cs = Ok s ->
+    walk_ok fx re_ok re_match (s_g s) (session_intent j c cs) files = true ->
     forallb (diag_guard fx re_ok re_match (s_g s) (session_intent j c cs) root)
-            (raw (filter (is_handled re_ok re_match (s_g s)) files)) = true ->
+            (raw (filter (is_handled fx re_ok re_match (s_g s)) files)) = true ->
     shown fx re_ok re_match raw (s_g s) root files
       = spec_shown re_ok re_match raw (session_intent j c cs) root files.
 Proof. exact filter_law_guarded. Qed.
@@ -122,7 +135,8 @@ Theorem C17_filter_law_plain :
     json_wf fx j = true -> client_wf c = true -> forallb client_wf cs = true ->
     session fx re_ok j c local_run cs = Ok s ->
     special_gate_ok fx (s_g s) = true ->
-    forallb plain_diag (raw (filter (is_handled re_ok re_match (s_g s)) files)) = true ->
+    walk_ok fx re_ok re_match (s_g s) (session_intent j c cs) files = true ->
+    forallb plain_diag (raw (filter (is_handled fx re_ok re_match (s_g s)) files)) = true ->
     shown fx re_ok re_match raw (s_g s) root files
       = spec_shown re_ok re_match raw (session_intent j c cs) root files.
 Proof. exact filter_law_plain. Qed.
@@ -305,6 +319,76 @@ Theorem C17_full_refuted_before : ~ C17_full_for code_round1.
 Proof. exact full_round1_refuted. Qed.
 Print Assumptions C17_full_refuted_before.
 
+(* ---- 6. the two places where the ignore-for-analysis rules decide (IgnoreFileOrDir / IgnoreFileOrFloder) ---- *)
+
+(* For EVERY configuration state (whatever route and history produced it - indeed any contents of the two rule lists),
+   every regexp engine and every file name: the directory walk scans the file iff the per-file predicate accepts it
+   (repaired code: both ask isIgnoreRelFile; the walk's extra pruning of ignored folders changes nothing) *)
+Theorem C17_ignore_sites_agree :
+  forall fx re_ok re_match g rel,
+    fx_sites fx = true -> is_handled fx re_ok re_match g rel = need_handle fx re_ok re_match g rel.
+Proof. exact sites_agree. Qed.
+Print Assumptions C17_ignore_sites_agree.
+
+(* the same for a whole workspace: the set of files the walk hands to the analysis = the set of files for which later
+   requests are accepted *)
+Corollary C17_ignore_sites_agree_workspace :
+  forall fx re_ok re_match g files,
+    fx_sites fx = true ->
+    filter (is_handled fx re_ok re_match g) files = filter (need_handle fx re_ok re_match g) files.
+Proof. intros fx re_ok re_match g files H. apply filter_ext. intros rel. exact (sites_agree fx re_ok re_match g rel H). Qed.
+Print Assumptions C17_ignore_sites_agree_workspace.
+
+(* ... and both are what the rules say, by every route and after any history: the file is taken out of the analysis
+   iff some rule matches its name or a folder on its way - however the rule is spelt (the classification of the
+   entries by a literal ".lua" suffix no longer decides anything) *)
+Theorem C17_ignore_sites_follow_intent :
+  forall fx re_ok re_match j c local_run cs s rel,
+    fx_dup fx = true -> fx_sites fx = true -> client_wf c = true -> forallb client_wf cs = true ->
+    session fx re_ok j c local_run cs = Ok s ->
+    is_handled fx re_ok re_match (s_g s) rel = spec_handled re_ok re_match (session_intent j c cs) rel
+    /\ need_handle fx re_ok re_match (s_g s) rel = spec_handled re_ok re_match (session_intent j c cs) rel.
+Proof. exact session_sites_exact. Qed.
+Print Assumptions C17_ignore_sites_follow_intent.
+
+(* the class of the defect (computed by the correspondence legs with the same extracted predicate) is empty on the
+   repaired code, and the guard walk_ok of the every-variant filter law holds *)
+Theorem C17_ignore_sites_class_empty :
+  forall fx re_ok re_match j c local_run cs s files,
+    fx_dup fx = true -> fx_sites fx = true -> client_wf c = true -> forallb client_wf cs = true ->
+    session fx re_ok j c local_run cs = Ok s ->
+    cls_ignore_sites fx re_ok re_match (s_g s) (session_intent j c cs) files = false
+    /\ walk_ok fx re_ok re_match (s_g s) (session_intent j c cs) files = true.
+Proof. exact sites_class_empty. Qed.
+Print Assumptions C17_ignore_sites_class_empty.
+
+(* the witness (replayed on the real server, known_findings/C17.json): client option IgnoreFileOrDir =
+   ["port/on.*lua"; "tests/"; "one.lua"], verbatim the documented example of docs/manual/config.md.  "port/on.*lua"
+   does not end in the literal ".lua", so it was filed as a FOLDER rule: the walk tried it on the folder "port/" only
+   and scanned port/onxx.lua (its diagnostics were published), while the per-file predicate refused the same file
+   (didOpen, didChange, hover ... ignored).  Now both refuse it; tests/t.lua and one.lua were and are refused by both,
+   a.lua accepted by both *)
+Theorem C17_ignore_sites_repaired :
+  match session code_round2 re_all None w_sites false [], session deployed re_all None w_sites false [] with
+  | Ok s, Ok s' =>
+      client_wf w_sites = true
+      /\ spec_handled re_all re_port_on (session_intent None w_sites []) port_onxx = false
+      /\ is_handled code_round2 re_all re_port_on (s_g s) port_onxx = true
+      /\ need_handle code_round2 re_all re_port_on (s_g s) port_onxx = false
+      /\ cls_ignore_sites code_round2 re_all re_port_on (s_g s) (session_intent None w_sites []) w_sites_files = true
+      /\ map (is_handled deployed re_all re_port_on (s_g s')) w_sites_files = [true; false; false; false]
+      /\ map (need_handle deployed re_all re_port_on (s_g s')) w_sites_files = [true; false; false; false]
+      /\ map (spec_handled re_all re_port_on (session_intent None w_sites [])) w_sites_files = [true; false; false; false]
+  | _, _ => False
+  end.
+Proof. vm_compute. repeat split. Qed.
+Print Assumptions C17_ignore_sites_repaired.
+
+(* hence the full statement was still false after the six repairs of rounds 1 and 2 *)
+Theorem C17_full_refuted_before_sites : ~ C17_full_for code_round2.
+Proof. exact full_round2_refuted. Qed.
+Print Assumptions C17_full_refuted_before_sites.
+
 (* ---- non-vacuity ---- *)
 
 (* the deployed code on a configuration with switches off, a silenced folder and an ignored file: the law hides three of
@@ -317,7 +401,8 @@ Example C17_law_inhabited :
       /\ map (visible deployed re_all re_none (s_g s) []) w_example_diags = [true; true; false; false; false; true]
       /\ map (fun d => negb (spec_excluded re_all re_none (session_intent None w_example []) [] d)) w_example_diags
          = [true; true; false; false; false; true]
-      /\ is_handled re_all re_none (s_g s) x_lua = false /\ is_handled re_all re_none (s_g s) a_lua = true
+      /\ is_handled deployed re_all re_none (s_g s) x_lua = false /\ is_handled deployed re_all re_none (s_g s) a_lua = true
+      /\ need_handle deployed re_all re_none (s_g s) x_lua = false /\ need_handle deployed re_all re_none (s_g s) a_lua = true
   | _ => False
   end.
 Proof. vm_compute. repeat split. Qed.
@@ -328,7 +413,8 @@ Example C17_guard_inhabited :
       client_wf w_example = true
       /\ forallb (diag_guard code_round1 re_all re_none (s_g s) (session_intent None w_example []) []) w_example_diags = true
       /\ map (visible code_round1 re_all re_none (s_g s) []) w_example_diags = [true; true; false; false; false; true]
-      /\ is_handled re_all re_none (s_g s) x_lua = false /\ is_handled re_all re_none (s_g s) a_lua = true
+      /\ is_handled code_round1 re_all re_none (s_g s) x_lua = false /\ is_handled code_round1 re_all re_none (s_g s) a_lua = true
+      /\ walk_ok code_round1 re_all re_none (s_g s) (session_intent None w_example []) [a_lua; x_lua; sub_dir ++ a_lua] = true
       /\ special_gate_ok code_round1 (s_g s) = true
   | _ => False
   end.
